@@ -141,8 +141,9 @@ func drawHier(t *rapid.T, o Opts) *Policy {
 		prevT, start = T, end
 	}
 	p := &Policy{Family: Hier, N: n, Levels: levels}
-	if !o.AllowSolo && p.SingletonQualified() {
-		// only (1;all) has qualified singletons: bump the top threshold
+	if p.SingletonQualified() {
+		// only (1;all) has qualified singletons, and there every singleton is qualified (a policy
+		// Draw promises never to return, whatever AllowSolo says): bump the top threshold
 		p.Levels[len(p.Levels)-1].T = 2
 		if len(p.Levels) > 1 && p.Levels[len(p.Levels)-2].T >= 2 {
 			p.Levels[len(p.Levels)-1].T = p.Levels[len(p.Levels)-2].T + 1
